@@ -189,6 +189,121 @@ def run_case(task):
     return out
 
 
+def run_multi(task):
+    """Family C: several line-count blocks in one file (concrete expressions, symbolic content, an
+    empty block among them): every block is judged on its own count."""
+    _fam, specs, want_sample = task
+    prog = driver.load_program()
+    stats = PathStats()
+    out = dict(violations=[], samples=[], obligations=0, cover={}, panic_paths=0)
+    holder = {}
+    roles = set()
+
+    def run_path(I):
+        src = []
+        bwcs = []
+        infos = []
+        line = 1
+        for bi, (expr, seg_spec) in enumerate(specs):
+            head = tuple(b'/* <block name="b%d" line-count="' % bi) + tuple(expr) + tuple(b'">')
+            if seg_spec is None:
+                # start and end tag in one comment: no content at all
+                text = head + tuple(b' </block> */\n')
+                cstart = cend = len(src) + len(text) - 1
+                segs = []
+                tagline = line
+                src += list(text)
+                nl = 0
+            else:
+                segs = [tuple(I.fresh_byte('m%d_%d_%d' % (bi, k, i), LINE_ALPHABET) for i in range(n)) for k, n in enumerate(seg_spec)]
+                content = []
+                for k, sg in enumerate(segs):
+                    if k:
+                        content.append(10)
+                    content.extend(sg)
+                text = head + tuple(b' */') + tuple(content) + tuple(END_TAG)
+                cstart = len(src) + len(head) + 3
+                cend = cstart + len(content)
+                tagline = line
+                src += list(text)
+                nl = len(segs) - 1
+            blk = mk_block(prog, I, {'name': b'b%d' % bi, 'line-count': SString(tuple(expr), I.new_alloc())},
+                           (tagline, 4), (tagline, len(head)), (cstart, cend), (tagline, len(head) + 4), (tagline + nl, 1))
+            bwcs.append(mk_bwc(prog, blk))
+            infos.append(dict(line=tagline, expr=bytes(expr).decode(), segs=segs))
+            line = tagline + nl + 1
+        holder.update(src=tuple(src), infos=infos)
+        ctx = mk_context(prog, I, [(b'f.js', tuple(src), bwcs)])
+        return run_validator(I, prog, 'LineCountValidator', ctx)
+
+    def viol(I, cond, role, summary):
+        out['obligations'] += 1
+        if role in roles:
+            return
+        if I.check(cond):
+            roles.add(role)
+            m = I.solver.model()
+            out['violations'].append(dict(role=role, summary=summary, multi=True, src=model_bytes(m, holder['src']).decode('latin1')))
+
+    for I, kind, val in explore(prog, models.M, run_path, stats=stats, max_paths=100000):
+        if kind == 'panic':
+            out['panic_paths'] += 1
+            viol(I, z3.BoolVal(True), 'panic', 'panic: %s' % val.msg[:120])
+            continue
+        st, res = decode_violations(prog, val)
+        if st == 'err':
+            viol(I, z3.BoolVal(True), 'valid-constraint-rejected', 'well-formed expressions, but the run failed')
+            continue
+        vs = res.get(b'f.js', [])
+        for info in holder['infos']:
+            import re as _re
+            em = _re.match(r'^\s*(<=|>=|==|<|>)\s*\+?([0-9]+)\s*$', info['expr'])
+            op, n = em.group(1), int(em.group(2))
+            count = zsum([z3.If(zor([z3.Not(f_ws(b)) for b in sg]), 1, 0) if sg else z3.IntVal(0) for sg in info['segs']]) if info['segs'] else z3.IntVal(0)
+            mine = [v for v in vs if v['start'][0] == info['line']]
+            if len(mine) > 1:
+                viol(I, z3.BoolVal(True), 'extra-violations', 'more than one violation for one block')
+            if mine:
+                viol(I, holds(op, count, n), 'satisfied-bound-reported', 'block at line %d: violation although count %s %d holds' % (info['line'], op, n))
+                data = mine[0]['data']
+                payload = data.f[0].data if (data.v == 1 and isinstance(data.f[0], Opaque)) else None
+                if payload is not None:
+                    actual = get_field(prog, payload, 'LineCountViolation', 'actual')
+                    viol(I, actual != count, 'data-actual-wrong', 'block at line %d: data.actual differs from its number of non-blank lines' % info['line'])
+            else:
+                viol(I, z3.Not(holds(op, count, n)), 'broken-bound-missed', 'block at line %d: no violation although count %s %d does not hold' % (info['line'], op, n))
+        out['cover']['several blocks'] = out['cover'].get('several blocks', 0) + 1
+        if want_sample and len(out['samples']) < 1:
+            m = I.ensure_model()
+            out['samples'].append(dict(src=model_bytes(m, holder['src']).decode('latin1'), multi=True))
+    out.update(Agg(PROP, 'x').stats_from(stats))
+    return out
+
+
+def ref_multi(src):
+    """Reference for family C: [(tag line, actual, op, expected)] of the blocks that must be reported."""
+    import re
+    s = src.decode('latin1')
+    out = []
+    for m in re.finditer(r'/\* <block name="b\d+" line-count="([^"]*)">( \*/(.*?)/\* </block> \*/| </block> \*/)', s, re.S):
+        em = re.match(r'^\s*(<=|>=|==|<|>)\s*\+?([0-9]+)\s*$', m.group(1))
+        op, n = em.group(1), int(em.group(2))
+        content = m.group(3) or ''
+        count = len([l for l in content.split('\n') if l.strip('\t\n\x0b\x0c\r ') != ''])
+        ok = {'<': count < n, '<=': count <= n, '==': count == n, '>=': count >= n, '>': count > n}[op]
+        if not ok:
+            out.append((s.count('\n', 0, m.start()) + 1, count, op, n))
+    return sorted(out)
+
+
+def observe_multi(binary, src):
+    r = run_scan(binary, {'f.js': src}, ['f.js'])
+    if r['diags'] is None:
+        return [] if r['code'] == 0 else dict(error=r['stderr'][-200:])
+    return sorted((d['range']['start']['line'], d['data']['actual'], d['data']['op'], d['data']['expected'])
+                  for d in r['diags'].get('f.js', []) if d.get('code') == 'line-count')
+
+
 # ------------------------------------------------------------------ replay
 
 def observe(binary, src):
@@ -225,6 +340,14 @@ def ref_eval(src):
 
 def confirm(binary, v, idx):
     src = v['src'].encode('latin1')
+    if v.get('multi'):
+        obs, want = observe_multi(binary, src), ref_multi(src)
+        v['observed'], v['expected'] = obs, want
+        v['confirmed'] = obs != want
+        if v['confirmed']:
+            v['replay'] = save_replay(PROP, '%s-%d' % (v['role'], idx), {'f.js': src}, 'f.js',
+                                      'expected (line, actual, op, expected) %s ; %s' % (want, v['summary']), v)
+        return v
     obs = observe(binary, src)
     want = ref_eval(src)
     v['observed'] = obs
@@ -266,6 +389,15 @@ def main(tier):
     rnd = random.Random(seed())
     rnd.shuffle(tasks)
     results = pmap(run_case, tasks, chunksize=2)
+    # family C: several blocks in one file, an empty one among them, in both orders
+    mt = []
+    E = lambda e: tuple(e.encode())
+    for e1, e2 in (('==0', '>=1'), ('<2', '==0'), ('>=1', '<1'), ('<=1', '>1')):
+        for segs in ((1, 1), (2, 0, 1), (1,)):
+            mt.append(('C', [(E(e1), segs), (E(e2), None)], True))
+            mt.append(('C', [(E(e2), None), (E(e1), segs)], False))
+            mt.append(('C', [(E(e1), segs), (E(e2), (0,)), (E(e1), (1,))], False))
+    results += pmap(run_multi, mt)
     for r in results:
         agg.add(r)
     by_role = {}
@@ -286,6 +418,14 @@ def main(tier):
     rnd.shuffle(samples)
     for s in samples[:b['validate']]:
         src = s['src'].encode('latin1')
+        if s.get('multi'):
+            if observe_multi(binary, src) == ref_multi(src):
+                agg.validated += 1
+            else:
+                msg = 'real %s vs reference %s on %r' % (observe_multi(binary, src), ref_multi(src), s['src'])
+                agg.validation_failures.append(msg)
+                agg.engine_errors.append({'engine_error': 'translator validation: ' + msg})
+            continue
         obs = observe(binary, src)
         if obs['outcome'] == s['outcome']:
             agg.validated += 1
@@ -302,7 +442,7 @@ def main(tier):
                      'family A: expression symbolic, content concrete; family B: expression from a concrete menu, content symbolic',
                      'serde_json::to_value is modelled as the identity on the payload struct; message text is opaque'],
         stubs=['serde_json::to_value (identity on the struct)', 'fmt::format / anyhow message construction (opaque)'],
-        must_cover=['err', 'reported', 'silent'],
+        must_cover=['err', 'reported', 'silent', 'several blocks'],
         explanation='reference grammar and count written as Z3 formulas over the same symbolic bytes; per path: PC∧valid∧Err, PC∧¬valid∧Ok, PC∧match_D∧(violation xor ¬(count OP N)), data fields')
 
 
